@@ -107,7 +107,7 @@ class C13Events(Machine):
     def setup(self, cfg):
         import pyrex
         P = self.pyrex = pyrex
-        self.cfg = cfg
+        self.cfg = cfg = dict(cfg)     # private copy: the resize op changes the dimensions
         self.erng = np.random.RandomState(cfg["rs"] % (2 ** 32))
         self.energy_fault = False
         self.energies = []
